@@ -288,6 +288,24 @@ func runC01(c *rt.Ctx) {
 		})
 	}
 	date.MaxInputLength = 10
+
+	// the process-local time zone must not matter: every day of 1900-2040 under hostile zones
+	zFirst, zLast := ref.Ordinal(1900, 1, 1), ref.Ordinal(2040, 12, 31)
+	for _, loc := range hostileZones() {
+		loc := loc
+		withLocal(loc, func() {
+			c.Parallel("zones/"+loc.String(), 0, func(w *rt.W) {
+				st := &c01State{}
+				for o := zFirst + int64(w.Shard); o <= zLast; o += int64(w.NShards) {
+					y, m, d := ref.Civil(o)
+					c01Case(w, st, y, m, d, o%8 == 0)
+				}
+				w.ClassN("local-zone-sweep", 1)
+			})
+		})
+	}
+	c.Extra("local_zones", len(hostileZones()))
+	c.Require("local-zone-sweep", int64(len(hostileZones())))
 	for _, cl := range []string{"leap-day", "month-end", "dec-31", "jan-1", "year-0000", "year-9999", "full-path-cross-product",
 		"year-digits-5", "year-digits-6", "year-digits-7", "year-digits-8", "year-digits-9", "text-over-limit", "big-year-within-limit"} {
 		c.Require(cl, 1)
